@@ -17,6 +17,8 @@ Definition scalQ : Q -> vec -> vec := vscal.
 
 (* np.finfo(float).eps ** 2 *)
 Definition eps2Q : Q := 1 # (2 ^ 104).
+(* np.finfo(float).eps *)
+Definition epsmQ : Q := 1 # (2 ^ 52).
 
 (* ---------------- linear solvers ---------------- *)
 Inductive lsolver := SLandweber | SCG | SCGN.
@@ -45,7 +47,7 @@ Definition check_lin (k : case_lin) : bool :=
       (length st <=? length (cl_trace k))%nat
       && prefix_then_stay (cl_x0 k) (map (cg_x vec) st) (cl_trace k)
   | SCGN =>
-      let st := cgn_run vec vec addQ scalQ ipV addQ scalQ ipW A At eps2Q (cl_b k) (cl_x0 k) (cl_niter k) in
+      let st := cgn_run vec vec addQ scalQ ipV addQ scalQ ipW A At eps2Q epsmQ (cl_b k) (cl_x0 k) (cl_niter k) in
       (length st <=? length (cl_trace k))%nat
       && prefix_then_stay (cl_x0 k) (map (n_x vec vec) st) (cl_trace k)
   end.
